@@ -34,6 +34,9 @@ type Opt struct {
 	Registry map[string]reflect.Type
 	// NilMessage allows nil for interface-typed message fields.
 	NilMessage bool
+	// Outside, when set, supplies messages only a user Codec knows (not registered) for interface-typed message fields,
+	// in about one case of four.
+	Outside func(t *rapid.T) any
 	// NilPointers allows nil for pointer fields whose writer dereferences them.
 	NilPointers bool
 	// Names restricts nested messages (empty = all registered).
@@ -290,6 +293,10 @@ func fill(t *rapid.T, v reflect.Value, o Opt, depth int, path string) {
 			// vivid.Message / any: a nested registered message
 			if o.NilMessage && rapid.IntRange(0, 4).Draw(t, "nilmsg") == 0 {
 				set(v, reflect.Zero(typ))
+				return
+			}
+			if o.Outside != nil && rapid.IntRange(0, 3).Draw(t, "outsidemsg") == 0 {
+				set(v, reflect.ValueOf(o.Outside(t)))
 				return
 			}
 			m := AnyMessage(t, o, depth+1)
